@@ -81,6 +81,7 @@ func kdir.Sync
     flags assumed
     assigns dirDirty
     ensures retErr == nil ==> !dirDirty[dir]
+    ensures retErr != nil ==> ioerr(retErr) && !is(retErr, fs.ErrNotExist)
     ensures forall d string :: d != dir ==> dirDirty[d] == old(dirDirty[d])
 
 func (Segment).Rename
@@ -93,7 +94,9 @@ func (Segment).Rename
     ensures[order_frame] forall p string :: p != olds.Log && p != olds.Index && p != news.Log && p != news.Index ==> fsExists[p] == old(fsExists[p])
 
 func (Segment).Override
-    flags noframe only_sync only_order
+    flags noframe only_sync only_order only_derive
+    // C11 (D10): the index is derived data; a segment whose index file is missing can still be replaced
+    ensures[derive_noindex] !old(fsExists)[news.Index] && old(fsExists)[olds.Log] && old(fsExists)[olds.Index] && distinct4(olds.Log, olds.Index, news.Log, news.Index) ==> !is(err, fs.ErrNotExist)
     requires[sync_src] !fsDirty[olds.Log] && !fsDirty[olds.Index]
     assigns fsDirty, fsExists, fsContent, dirDirty
     ensures[sync_dir] err == nil && news.AutoSync ==> !dirDirty[news.Dir]
@@ -103,8 +106,10 @@ func (Segment).Override
     assert[order_index_first] distinct4(olds.Log, olds.Index, news.Log, news.Index) ==> !fsExists[news.Index] at call os.Rename 1
 
 func (Segment).Remove
-    flags noframe only_sync
+    flags noframe only_sync only_derive
     assigns fsExists, dirDirty
+    // C11 (D10): ... and removed: a missing index file is not an error, the log file goes
+    ensures[derive_noindex] !old(fsExists)[s.Index] && old(fsExists)[s.Log] && s.Index != s.Log ==> !is(err, fs.ErrNotExist) && (err == nil ==> !fsExists[s.Log])
 
 // C07: Check accepts exactly the clean segments. Over the record abstraction of the log file as it is on entry
 // (f): a file that does not parse completely is rejected; for a file that does, the stored index is compared
